@@ -328,7 +328,7 @@ func (s *Stage) Receive(file *sts.Partial, reader io.Reader) (err error) {
 			cmp.Name, part.Beg, part.End, conflict.Beg, conflict.End))
 	}
 
-	if err = writeCompanion(path, cmp); err != nil {
+	if err = writeCompanion(path+compExt, cmp); err != nil {
 		err = fmt.Errorf("failed to write updated companion: %s", err.Error())
 		return
 	}
@@ -405,7 +405,7 @@ func (s *Stage) partReceived(part sts.Binned) bool {
 	}
 	existing := s.fromCache(final.path)
 	if existing == nil {
-		if cmp, _ := readLocalCompanion(path, final.name); cmp != nil {
+		if cmp, _ := readLocalCompanion(path+compExt, final.name); cmp != nil {
 			if final.renamed != cmp.Renamed || final.hash != cmp.Hash || final.prev != cmp.Prev {
 				return false
 			}
@@ -1101,7 +1101,7 @@ func (s *Stage) putFileAway(file *finalFile) (targetPath string, err error) {
 	// Clean up the companion (no need to capture an error since it wouldn't
 	// be a deal-breaker anyway) - unless a newer version that is being
 	// received behind this one has made it its own record
-	if cmp, _ := readLocalCompanion(file.path, file.name); cmp == nil || cmp.Hash == file.hash {
+	if cmp, _ := readLocalCompanion(file.path+compExt, file.name); cmp == nil || cmp.Hash == file.hash {
 		os.Remove(file.path + compExt)
 	}
 	return
